@@ -10,7 +10,7 @@ The Cython variants (get_gev_vector.pyx, c_eig.pyx) are not built on this image 
 """
 from ..model import AnalysisError
 from ..terms import T, walk_terms
-from ..walk import dead_leaf, data_derives, ret_alts, call_parts, call_arg, is_call_to, const_val, NOVAL, strip_views, unwrap_gamma, is_conj, same_value, as_norm, struct_eq, gamma_paths, selected_options
+from ..walk import norm_stmt, dead_leaf, data_derives, ret_alts, call_parts, call_arg, is_call_to, const_val, NOVAL, strip_views, unwrap_gamma, is_conj, same_value, as_norm, struct_eq, gamma_paths, selected_options
 from .. import ein, sel
 
 B = 'pb_bss.extraction.beamformer::'
@@ -78,6 +78,22 @@ def check_gev(run, A):
     for t in fb:
         ok = ok and derives(call_arg(t, 0), 'target_psd_matrix') and derives(call_arg(t, 1), 'noise_psd_matrix')
     run.check(ok, 'R-ROLE', 'get_gev_vector: fallback keeps (target, noise) order', fn2.loc(), '', 'fallback call swaps target and noise', construct=f'R-ROLE::{q2}::fallback-roles')
+    # every path of the dispatcher returns what one of the eigen solvers returns (the Cython variant or _get_gev_vector): a closed form / approximation written next to them
+    # (e.g. for two sensors) is a formula of its own whose maximality this rule does not decide
+    for alt in ret_alts(g2):
+        a0 = strip_views(alt)
+        if dead_leaf(a0):
+            continue
+        nm_ = call_parts(a0)[0] if a0.op == 'call' else None
+        if nm_ == q or (nm_ or '').endswith('_c_get_gev_vector') or (nm_ or '').endswith('_cythonized_eig._c_get_gev_vector') or a0.op in ('mu', 'store'):
+            continue
+        if nm_ is not None and ('eig' in nm_ or 'gev' in nm_):
+            continue
+        if any(x.op == 'call' and call_parts(x)[0] and ('eig' in call_parts(x)[0].split('.')[-1].split('::')[-1] or 'gev' in call_parts(x)[0].split('.')[-1].split('::')[-1])
+               for x in walk_terms(a0)):
+            continue          # a reshaped / indexed result of one of the solvers
+        run.unresolved('R-ROLE', 'get_gev_vector: every path returns the result of a generalised eigen solver', fn2.loc(getattr(a0, 'node', None)),
+                       f'`{norm_stmt(a0.node)[:90] if getattr(a0, "node", None) is not None else a0.op}` is returned on some path: a hand-written alternative to the eigen-decomposition is not decided')
 
 
 def check_pca(run, A):
